@@ -360,8 +360,48 @@ pub fn voltages_from_cover(base: &DS, f: &Frame, y: &DS) -> Result<Voltages, Str
     Ok(volt)
 }
 
-/// canonical form of a cover up to equivalence: minimum over all relabellings of the sheets
+/// canonical form of a cover up to equivalence (conjugation of the sheets). For a transitive
+/// voltage action (a connected cover): minimum over the base sheets of the breadth-first
+/// relabelling from that sheet (generators and their inverses in a fixed order), which is
+/// invariant under conjugation; otherwise the minimum over all relabellings.
 pub fn canonical_voltages(volt: &Voltages, k: usize) -> Vec<usize> {
+    let invs: Vec<Perm> = volt.iter().map(|p| inverse(p)).collect();
+    let mut best: Option<Vec<usize>> = None;
+    let mut transitive = true;
+    for b in 0..k {
+        let mut label = vec![usize::MAX; k];
+        let mut order = vec![b];
+        label[b] = 0;
+        let mut head = 0;
+        while head < order.len() {
+            let s = order[head];
+            head += 1;
+            for (p, pi) in volt.iter().zip(invs.iter()) {
+                for t in [p[s], pi[s]] {
+                    if label[t] == usize::MAX {
+                        label[t] = order.len();
+                        order.push(t);
+                    }
+                }
+            }
+        }
+        if order.len() < k {
+            transitive = false;
+            break;
+        }
+        let mut code = Vec::with_capacity(volt.len() * k);
+        for p in volt {
+            for &s in &order {
+                code.push(label[p[s]]);
+            }
+        }
+        if best.as_ref().map_or(true, |x| code < *x) {
+            best = Some(code);
+        }
+    }
+    if transitive {
+        return best.unwrap_or_default();
+    }
     let mut best: Option<Vec<usize>> = None;
     for g in all_perms(k) {
         let gi = inverse(&g);
